@@ -384,6 +384,11 @@ func checkFailover(c Case) (inf info, err error) {
 		reason := ""
 		for i, u := range g.ups {
 			if u.Observable() && (seen[i].n > 0) != o.contacted[i] {
+				if o.contacted[i] && modes[i] == fakeprom.ModeTimeout {
+					// the client gives up after ~1 s; on a starved machine that can be before the handler got to log
+					// the request, so a missing log entry of a timing-out upstream proves nothing
+					continue
+				}
 				if o.contacted[i] {
 					reason = fmt.Sprintf("upstream %d should have been contacted", i)
 				} else {
@@ -587,7 +592,7 @@ func checkChecks(c Case) (inf info, err error) {
 	return inf, nil
 }
 
-func run(c Case) (info, error) {
+func runOnce(c Case) (info, error) {
 	switch c.Kind {
 	case "failover":
 		return checkFailover(c)
@@ -595,6 +600,20 @@ func run(c Case) (info, error) {
 		return checkChecks(c)
 	}
 	return info{}, fmt.Errorf("unknown case kind %q", c.Kind)
+}
+
+// run judges a case; a failure must reproduce on an immediate second run with fresh servers and ports (the fault
+// table is deterministic, whereas a starved machine or exhausted loopback ports can make a healthy upstream look
+// unreachable once), otherwise the case is inconclusive.
+func run(c Case) (info, error) {
+	inf, err := runOnce(c)
+	if err == nil || errors.Is(err, errInconclusive) {
+		return inf, err
+	}
+	if _, err2 := runOnce(c); err2 == nil {
+		return inf, fmt.Errorf("%w: failed once, passed when run again: %v", errInconclusive, err)
+	}
+	return inf, err
 }
 
 // ---------------------------------------------------------------------------
@@ -847,8 +866,10 @@ func TestFaultTable(t *testing.T) {
 			mine = append(mine, c)
 		}
 	}
-	r.rec.Count("table_cells_total", int64(len(cells)))
-	r.rec.Count("table_cells_this_run", int64(len(mine)))
+	if shard == 0 {
+		r.rec.Count("table_cells_total", int64(len(cells)))
+	}
+	r.rec.Count("table_cells_run", int64(len(mine))) // summed over shards: must equal table_cells_total
 
 	var wg sync.WaitGroup
 	work := make(chan Case)
